@@ -1,7 +1,6 @@
 """Home of the `RemainingOperationsObserver` class."""
 
 from job_shop_lib import ScheduledOperation
-from job_shop_lib.dispatching import UnscheduledOperationsObserver
 from job_shop_lib.dispatching.feature_observers import (
     FeatureObserver,
     FeatureType,
@@ -18,10 +17,9 @@ class RemainingOperationsObserver(FeatureObserver):
     _supported_feature_types = [FeatureType.MACHINES, FeatureType.JOBS]
 
     def initialize_features(self):
-        unscheduled_ops_observer = self.dispatcher.create_or_get_observer(
-            UnscheduledOperationsObserver
-        )
-        for operation in unscheduled_ops_observer.unscheduled_operations:
+        # Read the dispatcher itself: another observer may be subscribed after
+        # this one and not have been reset yet when this method is called.
+        for operation in self.dispatcher.unscheduled_operations():
             if FeatureType.JOBS in self.features:
                 self.features[FeatureType.JOBS][operation.job_id, 0] += 1
             if FeatureType.MACHINES in self.features:
